@@ -90,6 +90,8 @@ impl Engine for SemEngine {
             .into_iter()
             // (the cyclic-table case of known finding K2 crashes the worker: it is exhibited by the vm engine only)
             .filter(|c| !c.iter().any(|l| l.contains("setprop(readvar($74),readvar($74)")))
+            // (`papply` is a harness-only host function that the reference semantics does not define)
+            .filter(|c| !c.iter().any(|l| l.contains("$706170706c79")))
             .filter_map(|c| c.into_iter().find(|l| l.starts_with("vm run")).map(|l| vec![format!("sem run {}", l.split(' ').nth(2).unwrap())]))
             .chain([
                 // known finding K1: a call in statement position leaves its result on the stack;
@@ -100,8 +102,8 @@ impl Engine for SemEngine {
                 vec!["sem run mod([],[fn($6d61696e,[],[setvar($63,table),repeat($69,int(#3),composite($5f,[setvar($61,readvar($69)),setvar($62,mul(readvar($69),int(#10))),append(closure([],[return(add(readvar($61),readvar($62)))]),readvar($63))])),setglobal($6730,dyncall([],getprop(readvar($63),int(#0)))),setglobal($6731,dyncall([],getprop(readvar($63),int(#1)))),setglobal($6732,dyncall([],getprop(readvar($63),int(#2))))])],[])".to_string()],
                 // a module-prefix import through `super.` (repaired: it never resolved)
                 vec!["sem run mod([],[fn($6d61696e,[],[setglobal($67,call($6c69622e696e6e65722e72,[]))])],[sub($6c6962,mod([],[],[sub($696e6e6572,mod([$73757065722e736962],[fn($72,[],[return(call($7369622e71,[]))])],[])),sub($736962,mod([],[fn($71,[],[return(int(#7))])],[]))]))])".to_string()],
-                // known finding K8: a failed run_function leaves the callee's frames; a host function that
-                // tolerates the failure (pcall) continues with them on the call stack
+                // (repaired, was K8) a failed run_function left the callee's frames; a host function that
+                // tolerates the failure (pcall) continued with them on the call stack
                 vec!["sem run mod([],[fn($6d61696e,[],[setglobal($61,call($66,[]))]),fn($66,[],[setvar($78,callnative($7063616c6c,[closure([$70],[return(getprop(int(#1),int(#2)))]),int(#0)])),return(int(#5))])],[])".to_string()],
                 // known finding K6: `abort` inside a callee that a host function called ends only the callee
                 vec!["sem run mod([],[fn($6d61696e,[],[setglobal($67,callnative($63616c6c6261636b,[closure([$70],[abort]),int(#5)])),setglobal($68,int(#7))])],[])".to_string()],
